@@ -260,6 +260,9 @@ def copied_module_forward(run):
 
 
 def build(run):
+    from props import conformance
+
+    conformance.run_conformance(run, ['pack'])
     run.assume("A-ENGINE", "A-PY", "A-PURE quantize_weight and the PyTorch ops are deterministic functions of their arguments (bit-identical repetition)",
                "A-TORCH-NN Parameter(q) reaches detach; deepcopy copies attributes and reaches clone; nn.Module attribute assignment",
                "contracts of quantize_weight (C01-C03, C14), PackedTensor (C04), class invariants of moves (C06)")
